@@ -6,6 +6,8 @@ import Lc3V.Driver.Instr
 import Lc3V.Driver.Sim
 import Lc3V.Driver.Timer
 import Lc3V.Driver.Source
+import Lc3V.Driver.Lex
+import Lc3V.Driver.Parse
 open Lc3V Lc3V.Driver
 
 structure DState where
@@ -20,6 +22,10 @@ def step (st : DState) (line : String) : DState × String :=
   | "sim" :: args => let (s', out) := cmdSim st.sim args; ({ st with sim := s' }, out)
   | "tim" :: args => let (t', out) := cmdTim st.tim args; ({ st with tim := t' }, out)
   | "src" :: args => let (t', out) := cmdSrc st.src args; ({ st with src := t' }, out)
+  | "lex" :: args => (st, cmdLex args)
+  | "parse" :: args => (st, cmdParse args)
+  | "print" :: args => (st, cmdPrint args)
+  | "disasm" :: args => (st, cmdDisasm args)
   | "off" :: args  => (st, cmdOff false args)
   | "offt" :: args => (st, cmdOff true args)
   | "wop" :: args => (st, cmdWop args)
